@@ -87,6 +87,9 @@ func TestC21(t *testing.T) {
 		t    Target
 		algs map[uint16]bool
 		ech  bool // the connection uses (accepted) ECH: the hello that counts is the inner one
+		// echReject: the server rejects the ECH offer and answers the OUTER hello, which
+		// carries the preset's compress_certificate extension
+		echReject bool
 	}
 	var clients []client
 	for _, tg := range ParrotTargets(false) {
@@ -101,7 +104,7 @@ func TestC21(t *testing.T) {
 		for _, a := range ch.CertCompAlgs {
 			m[a] = true
 		}
-		clients = append(clients, client{tg.Name, tg, m, false})
+		clients = append(clients, client{tg.Name, tg, m, false, false})
 	}
 	subsets := [][]tls.CertCompressionAlgo{{tls.CertCompressionBrotli}, {tls.CertCompressionZlib}, {tls.CertCompressionZstd}, {tls.CertCompressionZlib, tls.CertCompressionBrotli, tls.CertCompressionZstd}, {tls.CertCompressionZstd, tls.CertCompressionZlib}}
 	for _, ss := range subsets {
@@ -111,7 +114,7 @@ func TestC21(t *testing.T) {
 			m[uint16(a)] = true
 			name += fmt.Sprintf("-%d", a)
 		}
-		clients = append(clients, client{name, Target{Name: name, Spec: customCompressSpec(ss)}, m, false})
+		clients = append(clients, client{name, Target{Name: name, Spec: customCompressSpec(ss)}, m, false, false})
 	}
 	// callers that change what they advertise after the hello was first built (documented
 	// edits of uconn.Extensions): what counts is the extension on the wire
@@ -126,7 +129,7 @@ func TestC21(t *testing.T) {
 			}
 			u.Extensions = kept
 			return nil
-		}}, map[uint16]bool{}, false})
+		}}, map[uint16]bool{}, false, false})
 		clients = append(clients, client{p.Name + "+list-narrowed-after-build", Target{Name: p.Name + "+list-narrowed-after-build", ID: p.ID, Edit: func(u *tls.UConn) error {
 			for _, e := range u.Extensions {
 				if cc, ok := e.(*tls.UtlsCompressCertExtension); ok {
@@ -134,13 +137,24 @@ func TestC21(t *testing.T) {
 				}
 			}
 			return nil
-		}}, map[uint16]bool{uint16(tls.CertCompressionZstd): true}, false})
+		}}, map[uint16]bool{uint16(tls.CertCompressionZstd): true}, false, false})
 	}
 	// accepted ECH: the hello the server answers is the inner one, which uTLS builds as a
 	// plain crypto/tls hello without compress_certificate - whatever the outer hello lists
 	for _, pn := range []string{"Chrome_120", "Firefox_120", "Chrome_131"} {
 		if p := ParrotByName(pn); p.Name != "" {
 			clients = append(clients, client{name: p.Name + "+ech-accepted", t: Target{Name: p.Name + "+ech-accepted", ID: p.ID}, algs: map[uint16]bool{}, ech: true})
+		}
+	}
+	for _, pn := range []string{"Chrome_120", "Chrome_131"} {
+		if p := ParrotByName(pn); p.Name != "" {
+			if ch, err := (Target{Name: p.Name, ID: p.ID}).Probe("example.test"); err == nil {
+				m := map[uint16]bool{}
+				for _, a := range ch.CertCompAlgs {
+					m[a] = true
+				}
+				clients = append(clients, client{name: p.Name + "+ech-rejected", t: Target{Name: p.Name + "+ech-rejected", ID: p.ID}, algs: m, echReject: true})
+			}
 		}
 	}
 	r.Count("clients", int64(len(clients)))
@@ -247,6 +261,16 @@ func TestC21(t *testing.T) {
 			extra = func(c *tls.Config) { c.Certificates = []tls.Certificate{peer.Fix().ECDSA} }
 			r.Count("with_certificate_request", 1)
 		}
+		if j.cl.echReject {
+			scfg.EncryptedClientHelloKeys = peer.ECHServerKeys(true, peer.NewECHKey(3, "public.example.test", []uint16{1, 3}, 32)) // not the key the client has
+			prev := extra
+			extra = func(c *tls.Config) {
+				if prev != nil {
+					prev(c)
+				}
+				c.EncryptedClientHelloConfigList = peer.ECHConfigList(gridECHKey())
+			}
+		}
 		if j.cl.ech {
 			scfg.EncryptedClientHelloKeys = peer.ECHServerKeys(true, gridECHKey())
 			prev := extra
@@ -322,7 +346,19 @@ func TestC21(t *testing.T) {
 			r.Case(fmt.Sprintf("%s|%d|%s|%d|%s|decodes", j.cl.name, j.alg, settings[j.set].name, bucket, j.corrupt), true)
 			return
 		}
-		if valid {
+		if valid && j.cl.echReject {
+			// the certificate has to be recovered (the rejection is authenticated with it): the
+			// connection then ends with the ECH rejection, or with a verification error if the
+			// chain does not cover the public name - never with a complaint about the message
+			var rej *tls.ECHRejectionError
+			var cve *tls.CertificateVerificationError
+			if errors.As(h.ClientErr, &rej) || errors.As(h.ClientErr, &cve) {
+				r.Count("valid_accepted_before_ech_rejection", 1)
+			} else {
+				sig["kind"] = "valid_compressed_certificate_rejected"
+				r.Violation(sig, fmt.Sprintf("%s: ECH rejected, the server answers the outer hello with a valid %s-compressed certificate: %s", j.cl.name, algName(j.alg), h.ErrString()), rep)
+			}
+		} else if valid {
 			if !h.OK() {
 				sig["kind"] = "valid_compressed_certificate_rejected"
 				delete(sig, "client")
